@@ -32,7 +32,9 @@ EXPLANATION = (
     'vs node key); R-C09.8 the applied evolutions / migrations that prune '
     'the graph are read from the database being evolved; '
     'R-C09.9 app-level before-requirements attach to the app\'s __last__ anchor and after-requirements to its __first__ anchor (reaching definitions of the node argument in EvolutionGraph.add_evolutions); '
-    'R-C09.1 sequence chaining is decided by data flow (the freshly created unit depends on the carried-over one); R-C09.10 mutation-generated requirements are merged per key into the declared ones, never assigned over them.')
+    'R-C09.1 sequence chaining is decided by data flow (the freshly created unit depends on the carried-over one); R-C09.10 mutation-generated requirements are merged per key into the declared ones, never assigned over them.'
+    ' '
+    'R-C09.11 the loops registering the four kinds of declared requirements are not nested in one another.')
 NOT_DECIDED = (
     'Correctness of the topological sort on all graphs, and the behaviour '
     'of Django\'s own migration planner.')
@@ -810,7 +812,64 @@ def r10_mutation_deps_merged(ctx):
     ctx.floor('folds of mutation-generated requirements', n_folds, 1)
 
 
+def r11_dependency_kinds_registered_independently(ctx):
+    """The four kinds of declared requirements (before/after x
+    evolutions/migrations) are independent lists.  A loop that registers the
+    edges of one kind must not sit inside the loop over another kind: the
+    edge set is a set, so repeating the inner loop is invisible whenever the
+    outer list is non-empty - and when it is empty the inner requirements
+    are never registered at all (BEFORE_MIGRATIONS without
+    BEFORE_EVOLUTIONS)."""
+    ctx.rule('R-C09.11')
+    p = ctx.program
+    m = p.module(G)
+    n_loops = 0
+
+    def dep_key(expr):
+        for x in ast.walk(expr):
+            if isinstance(x, ast.Subscript) and \
+                    const_str(x.slice) in DEP_KEYS:
+                return const_str(x.slice)
+            if isinstance(x, ast.Call) and call_name(x) == 'get' and x.args \
+                    and const_str(x.args[0]) in DEP_KEYS:
+                return const_str(x.args[0])
+        return None
+    for f in m.all_funcs():
+        def rec(stmts, outer):
+            nonlocal n_loops
+            for st in stmts:
+                k = dep_key(st.iter) if isinstance(st, ast.For) else None
+                if k:
+                    n_loops += 1
+                    if outer and outer[-1][0] != k:
+                        ctx.finding(f, st, '%s registers the %s requirements '
+                                    'inside the loop over %s (line %d): with '
+                                    'no %s entry they are never registered, '
+                                    'and the units they constrain are ordered '
+                                    'as if nothing had been declared' % (
+                                        f.qualname, k, outer[-1][0],
+                                        outer[-1][1].lineno, outer[-1][0]),
+                                    key='dep-kind-nested:%s-in-%s' % (
+                                        k, outer[-1][0]))
+                    else:
+                        ctx.ok(f, 'the %s requirements are registered in a '
+                               'loop of their own' % k, st)
+                for blk in ('body', 'orelse', 'finalbody'):
+                    b = getattr(st, blk, None)
+                    if isinstance(b, list) and b and \
+                            isinstance(b[0], ast.stmt) and not isinstance(
+                                st, (ast.FunctionDef, ast.ClassDef)):
+                        rec(b, outer + ([(k, st)] if k and blk == 'body'
+                                        else []))
+                for h in getattr(st, 'handlers', []):
+                    rec(h.body, outer)
+        rec(f.node.body, [])
+    ctx.floor('loops over declared requirement lists in utils.graph',
+              n_loops, 2)
+
+
 def run(ctx):
+    r11_dependency_kinds_registered_independently(ctx)
     r10_mutation_deps_merged(ctx)
     r9_anchor_polarity(ctx)
     r8_applied_from_evolved_database(ctx)
